@@ -79,7 +79,7 @@ func (p *ptrExec) Exec(line string) (obs, viol string) {
 			if len(t) >= 4 {
 				fmt.Sscan(t[3], &slot)
 			}
-			if m := p.Trees[slot]; m != nil && p.Cache == nil && (t[2] == "ins" || t[2] == "del" || t[2] == "get" || t[2] == "iter") {
+			if m := p.Trees[slot]; m != nil && p.Cache == nil && (t[2] == "ins" || t[2] == "del" || t[2] == "get" || t[2] == "iter" || t[2] == "seek") {
 				var r int
 				fmt.Sscan(t[1], &r)
 				before := p.Store.TotalLoads
@@ -132,7 +132,7 @@ func (p *ptrExec) Exec(line string) (obs, viol string) {
 	}
 	obs, viol = p.Session.Exec(line)
 	switch t[0] {
-	case "new", "ins", "del", "get", "iter", "clone", "root", "roots", "load", "cur", "cmin", "cmax", "cfwd", "cbwd", "cceil":
+	case "new", "ins", "del", "get", "iter", "seek", "clone", "root", "roots", "load", "cur", "cmin", "cmax", "cfwd", "cbwd", "cceil":
 		switch {
 		case obs == "bad-slot" || obs == "bad-op":
 		case strings.HasPrefix(obs, "err"):
@@ -376,7 +376,11 @@ func genPtrCase(r *rand.Rand, cfg Cfg) Case {
 		case x < 70:
 			ops = append(ops, fmt.Sprintf("get %d %d", s, pick(r, uni)))
 		case x < 73:
-			ops = append(ops, fmt.Sprintf("iter %d", s))
+			if r.Intn(2) == 0 {
+				ops = append(ops, fmt.Sprintf("seek %d %d", s, pick(r, uni)))
+			} else {
+				ops = append(ops, fmt.Sprintf("iter %d", s))
+			}
 		case x < 80:
 			d := r.Intn(5)
 			ops = append(ops, fmt.Sprintf("clone %d %d", s, d))
@@ -460,7 +464,7 @@ func genPtrCase(r *rand.Rand, cfg Cfg) Case {
 			}
 			op = opDel(s, k, m[k])
 		case 4:
-			op = pick(r, []string{fmt.Sprintf("get %d %d", s, pick(r, uni)), fmt.Sprintf("iter %d", s)})
+			op = pick(r, []string{fmt.Sprintf("get %d %d", s, pick(r, uni)), fmt.Sprintf("iter %d", s), fmt.Sprintf("seek %d %d", s, pick(r, uni))})
 		default:
 			op = pick(r, []string{fmt.Sprintf("clone %d %d", s, r.Intn(5)), fmt.Sprintf("root %d %d", s, nroot)})
 		}
